@@ -267,6 +267,9 @@ func (r *SecRun) persisted(adminTok string) (string, error) {
 	ids := sortedKeys(cl)
 	out := []string{"clients=" + strings.Join(ids, ",")}
 	for _, id := range sortedKeys(r.clients) {
+		if !r.clients[id] {
+			continue
+		}
 		code, body := r.H.Do("GET", "/security/clients/"+id+"/acl", map[string]string{"Authorization": "Bearer " + adminTok}, nil)
 		if code != 200 {
 			return "", fmt.Errorf("get acl: %d", code)
@@ -380,6 +383,29 @@ func RunSecScenario(sc *Scenario) (vd *Verdict) {
 				return
 			}
 			r.ev("acl %s %s", op.DS, aclShape(r.acl[op.DS]))
+		case "unregister":
+			// the admin deletes a client registration; tokens that client obtained before stay cryptographically valid
+			adm, _, _, _ := r.token("admin")
+			b, _ := json.Marshal(security.ClientInfo{ClientID: op.DS, Deleted: true})
+			if code, body := r.H.Do("POST", "/security/clients", map[string]string{"Authorization": "Bearer " + adm}, b); code != 200 {
+				fail(viol("C16", "harness", "invalid", "unregister client: %d %s", code, body), i)
+				return
+			}
+			r.clients[op.DS] = false
+			r.acl[op.DS] = nil
+			r.Stats["clients_unregistered"]++
+			r.ev("unregister %s", op.DS)
+		case "register":
+			adm, _, _, _ := r.token("admin")
+			key := r.c1Key
+			if op.DS == "client2" {
+				key = r.c2Key
+			}
+			if err := r.registerClient(adm, op.DS, key); err != nil {
+				fail(viol("C16", "harness", "invalid", "%v", err), i)
+				return
+			}
+			r.ev("register %s", op.DS)
 		case "advance":
 			time.Sleep(time.Duration(op.N) * time.Second)
 			// keep a client token around that will be expired later
